@@ -126,6 +126,13 @@ func faultSweep(c *Ctx, in interface{}, all bool, run func(failN int) faultRun) 
 	for _, k := range ks {
 		faultOne(c, in, k, base, run)
 	}
+	// the same call indices once more with a 409 Conflict on mutating calls (negative k); a conflict may legitimately be
+	// retried inside the action (retry.RetryOnConflict), so the verdict there is "reported OR completed"
+	for i, k := range ks {
+		if all || i == len(ks)-1 || c.Rng.Intn(2) == 0 {
+			faultOne(c, in, -k, base, run)
+		}
+	}
 }
 
 func faultOne(c *Ctx, in interface{}, k int, base faultRun, run func(failN int) faultRun) {
